@@ -88,8 +88,12 @@ SimFileP SimOS::file (const std::string &name, bool create)
 }
 
 int SimOS::open_fd (SimFileP f, int flags, bool by_lib)
-{	int fd = next_fd ++ ;
+{	// lowest free number, as a kernel does: a stale close of an old number can then hit an unrelated handle
+	int fd = 1000 ;
+	for (;;) { auto it = fds.find (fd) ; if (it == fds.end () || !it->second.is_open) break ; fd ++ ; }
+	if (fd >= next_fd) next_fd = fd + 1 ;
 	SimFd &d = fds [fd] ;
+	d = SimFd () ;
 	d.f = f ; d.off = 0 ; d.flags = flags ; d.is_open = true ; d.opened_by_lib = by_lib ;
 	return fd ;
 }
@@ -302,7 +306,15 @@ extern "C" int __wrap_open (const char *path, int flags, ...)
 	{	errno = f->arg ? (int) f->arg : EMFILE ; tr_io (IO_OPEN, flags, 0, -1, f->kind) ; return -1 ; }
 	SimFileP sf = g_os->file (p, false) ;
 	if (!sf)
-	{	if (!(flags & O_CREAT)) { errno = ENOENT ; tr_io (IO_OPEN, flags, 0, -1, 0) ; return -1 ; }
+	{	// directory semantics: only /sim, /sim/cwd and /sim/tmp are directories; a path below a regular file is ENOTDIR
+		size_t sl = p.rfind ('/') ;
+		std::string parent = sl == std::string::npos ? std::string () : p.substr (0, sl) ;
+		if (parent != "/sim/cwd" && parent != "/sim/tmp" && parent != "/sim")
+		{	bool below_file = false ;
+			for (size_t q = parent.size () ; q != std::string::npos && q > 0 ; q = parent.rfind ('/', q - 1)) { if (g_os->ns.count (parent.substr (0, q))) { below_file = true ; break ; } if (q == 0) break ; }
+			errno = below_file ? ENOTDIR : ENOENT ; tr_io (IO_OPEN, flags, 0, -1, 0) ; return -1 ;
+		}
+		if (!(flags & O_CREAT)) { errno = ENOENT ; tr_io (IO_OPEN, flags, 0, -1, 0) ; return -1 ; }
 		sf = g_os->file (p, true) ;
 	}
 	else if ((flags & O_CREAT) && (flags & O_EXCL)) { errno = EEXIST ; tr_io (IO_OPEN, flags, 0, -1, 0) ; return -1 ; }
